@@ -22,7 +22,7 @@ namespace
   {
     World<Mesh_, space_id_, BS_> w;
     if(!w.build(cf)) { err = w.error; return false; }
-    exact = (op == op_gate || op == op_sync0 || op == op_apply || op == op_diag || op == op_lump || op == op_to1) || (w.B.all_pow2 && op != op_pcg);
+    exact = (op == op_gate || op == op_sync0 || op == op_apply || op == op_diag || op == op_lump || op == op_to1 || op == op_rect_apply || op == op_rect_to1) || (w.B.all_pow2 && op != op_pcg);
     for(int mode = 0; mode < 2; ++mode)
     {
       minimpi::Explorer ex;
